@@ -8,6 +8,9 @@ CLAIMS = {
  "C01": ("Document store + position mapping modelled in Gallina; reference LSP client buffer as specification. The full statement is refuted (2 machine-checked witnesses, both recorded as known findings); C01_partial proves it for ALL histories outside the two refuted classes; every run compares model, reference client and implementation on generated histories decoded from wire JSON, and the answers of 8 handlers with a fresh server on the final text.",
          "Trusted: Coq kernel+VM; Go UTF-8 decoding is modelled (Lib/Utf8.v); the transcription is checked by correspondence only; background analyses are awaited after each notification.",
          "Coq proof (refutation + partial theorem by induction on histories) + differential correspondence", "5 C01"),
+ "C02": ("CheckBalance / createBalanceDiagnostic modelled on the AST with decimals as (mantissa, exponent); C02_ast proves for EVERY posting list (unbounded decimals, any kinds, unit and total costs) that the verdict and the named differences are those of the exact rational sums. Every run opens generated documents (all number notations of G, balanced / off by exact residuals / missing amounts) on the real server and checks the published verdict against the rational rule evaluated on the structure the text was generated from, and the analyzer model against the parser's AST.",
+         "Trusted: Coq kernel+VM; decimal library modelled; the lexer/parser step is checked per case, not proved (three notation classes are recorded known findings); G generator/printer in Go.",
+         "Coq proof (rational-sum homomorphism, all posting lists) + end-to-end differential oracle", "5 C02"),
  "C10": ("Include loader modelled at include-graph level (visited set, cache, both limits); the exact-cycle clause is refuted by three machine-checked witnesses (diamond, double include, count-based depth limit: recorded known findings); root-level verdicts proved for all file systems. Every run compares model, a stack-based reference traversal and the real loader on all 512 digraphs on 3 files plus random directories using every include form (relative, ./, absolute, ~/, dot-dot, glob).",
          "Trusted: Coq kernel+VM; graph-level abstraction (path and glob resolution run in the real code, results given to the model); termination/soundness of the traversal for all graphs is checked by the tie and oracle, not yet proved (ceiling).",
          "Coq refutation theorems + reference-traversal oracle + exhaustive small-graph correspondence", "5 C10"),
